@@ -24,27 +24,35 @@ Ops ==
     {Op("Contains", x, 0, 0) : x \in {0, 2}} \cup
     {Op("Eq", e, 0, 0) : e \in {0, 1}} \cup
     {Op("Count", 1, 0, 0)} \cup
-    {Op("HasInd", i, 0, 0) : i \in {0, 2, 3}}
+    {Op("HasInd", i, 0, 0) : i \in {0, 2, 3}} \cup
+    {Op("IterTake", 1, 0, 0), Op("IterDrain", 0, 0, 0), Op("CopyIndex", 0, 0, 0), Op("CopyIndex", 1, 0, 0),
+     Op("CopyList", 0, 0, 0)}
 
-VARIABLES src, st, lastop, last
-vars == <<src, st, lastop, last>>
+VARIABLES src, st, ait, lastop, last, expect
+vars == <<src, st, ait, lastop, last, expect>>
 
 Init == /\ src \in Sources
-        /\ st = [gen |-> <<>>, raw |-> 0]
+        /\ st = InitImpl
+        /\ ait = -1
         /\ lastop = Op("None", 0, 0, 0)
         /\ last = RE("none")
+        /\ expect = RE("none")
 
 Observe(o) ==
     LET r == ImplDo(src, st, o)
     IN /\ last' = r[1]
        /\ st' = r[2]
        /\ lastop' = o
+       /\ expect' = AbsAnswer(src, ait, o)
+       /\ ait' = AbsItAfter(src, ait, o)
        /\ UNCHANGED src
 
 Next == \E o \in Ops : Observe(o)
 Spec == Init /\ [][Next]_vars
 
-Refines == lastop.op # "None" => last = AbsAnswer(src, lastop)
-CachePrefix == IsPrefixOf(st.gen, src) /\ st.raw = Len(st.gen)
+Refines == last = expect
+CachePrefix == /\ IsPrefixOf(st.gen, src) /\ st.raw = Len(st.gen)
+               /\ IsPrefixOf(st.cp.gen, src)            \* the copy caches a prefix of the same list
+IteratorsAgree == st.it = ait
 AppendOnly == [][IsPrefixOf(st.gen, st'.gen)]_vars
 ====
